@@ -12,10 +12,24 @@ use std::thread::JoinHandle;
 use std::{
     io::Write,
     path::PathBuf,
-    sync::{Arc, Mutex},
+    sync::{
+        atomic::{AtomicBool, Ordering},
+        Arc, Mutex,
+    },
 };
 #[cfg(feature = "async")]
 use {crossbeam_channel::Sender, crossbeam_queue::ArrayQueue};
+
+fn is_windows_line_ending(line_ending: &[u8]) -> bool {
+    line_ending == super::WINDOWS_LINE_ENDING
+}
+fn line_ending(windows_line_ending: &AtomicBool) -> &'static [u8] {
+    if windows_line_ending.load(Ordering::Relaxed) {
+        super::WINDOWS_LINE_ENDING
+    } else {
+        super::UNIX_LINE_ENDING
+    }
+}
 
 #[derive(Debug)]
 pub(super) enum StateHandle {
@@ -27,11 +41,13 @@ pub(super) enum StateHandle {
 pub(super) struct SyncHandle {
     am_state: Arc<Mutex<State>>,
     format_function: FormatFunction,
-    line_ending: &'static [u8],
+    // (reset() can change the line ending)
+    windows_line_ending: AtomicBool,
 }
 impl SyncHandle {
     fn new(state: State, format_function: FormatFunction) -> Self {
-        let line_ending = state.config().line_ending;
+        let windows_line_ending =
+            AtomicBool::new(is_windows_line_ending(state.config().line_ending));
         let flush_interval = state.config().write_mode.get_flush_interval();
         let am_state = Arc::new(Mutex::new(state));
 
@@ -42,7 +58,7 @@ impl SyncHandle {
         Self {
             am_state,
             format_function,
-            line_ending,
+            windows_line_ending,
         }
     }
 }
@@ -51,7 +67,7 @@ impl std::fmt::Debug for SyncHandle {
         f.debug_struct("SyncHandle")
             .field("am_state", &self.am_state)
             .field("format", &"<..>")
-            .field("line_ending", &self.line_ending)
+            .field("line_ending", &line_ending(&self.windows_line_ending))
             .finish_non_exhaustive()
     }
 }
@@ -64,7 +80,8 @@ pub(super) struct AsyncHandle {
     a_pool: Arc<ArrayQueue<Vec<u8>>>,
     message_capa: usize,
     format_function: FormatFunction,
-    line_ending: &'static [u8],
+    // (reset() can change the line ending)
+    windows_line_ending: AtomicBool,
 }
 #[cfg(feature = "async")]
 impl AsyncHandle {
@@ -75,7 +92,8 @@ impl AsyncHandle {
         format_function: FormatFunction,
     ) -> Self {
         let flush_interval = state.config().write_mode.get_flush_interval();
-        let line_ending = state.config().line_ending;
+        let windows_line_ending =
+            AtomicBool::new(is_windows_line_ending(state.config().line_ending));
         let am_state = Arc::new(Mutex::new(state));
         let a_pool = Arc::new(ArrayQueue::new(pool_capa));
 
@@ -96,7 +114,7 @@ impl AsyncHandle {
             a_pool,
             message_capa,
             format_function,
-            line_ending,
+            windows_line_ending,
         }
     }
 
@@ -105,9 +123,11 @@ impl AsyncHandle {
         (self.format_function)(&mut buffer, now, record).inspect_err(|e| {
             eprint_err(ErrorCode::Format, "formatting failed", &e);
         })?;
-        buffer.write_all(self.line_ending).inspect_err(|e| {
-            eprint_err(ErrorCode::Write, "writing failed", &e);
-        })?;
+        buffer
+            .write_all(line_ending(&self.windows_line_ending))
+            .inspect_err(|e| {
+                eprint_err(ErrorCode::Write, "writing failed", &e);
+            })?;
         #[cfg(flexi_logger_verif)]
         crate::verif_hooks::sched_point("async_send");
         self.sender
@@ -132,7 +152,7 @@ impl std::fmt::Debug for AsyncHandle {
             .field("a_pool", &self.a_pool)
             .field("message_capa", &self.message_capa)
             .field("format", &"<..>")
-            .field("line_ending", &self.line_ending)
+            .field("line_ending", &line_ending(&self.windows_line_ending))
             .finish_non_exhaustive()
     }
 }
@@ -198,7 +218,7 @@ impl StateHandle {
                             eprint_err(ErrorCode::Format, "formatting failed", &e);
                         });
                         buffer
-                            .write_all(handle.line_ending)
+                            .write_all(line_ending(&handle.windows_line_ending))
                             .unwrap_or_else(|e| eprint_err(ErrorCode::Write, "writing failed", &e));
                         handle
                             .am_state
@@ -265,6 +285,17 @@ impl StateHandle {
         .map_err(|_| FlexiLoggerError::Poison)?;
         flwb.assert_write_mode((*state).config().write_mode)?;
         *state = flwb.try_build_state()?;
+        // the line ending of the new configuration is used from now on
+        let windows = is_windows_line_ending((*state).config().line_ending);
+        match self {
+            StateHandle::Sync(handle) => {
+                handle.windows_line_ending.store(windows, Ordering::Relaxed)
+            }
+            #[cfg(feature = "async")]
+            StateHandle::Async(handle) => {
+                handle.windows_line_ending.store(windows, Ordering::Relaxed)
+            }
+        }
         Ok(())
     }
 
